@@ -209,6 +209,7 @@ def execute_crash(scn, k):
     from repid.message import MessageCategory
 
     dur, fails, recurring = ACTORS[scn["actor"]]
+    CRASH_TIMEOUT = scn.get("timeout", globals()["CRASH_TIMEOUT"])  # noqa: N806 - per scenario
     x = Exec("redis", buckets="results" if scn["actor"] == "result" else None)
     w = x.world
     loop = x.loop
@@ -397,6 +398,13 @@ def jobs(tier):
             nk = base["iters"]
             for lo in range(0, nk, 25):
                 out.append(dict(scn=scn, ks=list(range(lo, min(lo + 25, nk)))))
+    # execution timeouts with a days component (timedelta.seconds is not total_seconds())
+    for tmo in (86400.0 + 1.5, 2 * 86400.0):
+        scn = dict(kind="redis", g=1.0, actor="long", load=1, stop="crash", timeout=tmo)
+        base = execute(dict(scn, stop="signal"), None)
+        ks = list(range(0, base["iters"], 3 if tier == "quick" else 1))
+        for lo in range(0, len(ks), 25):
+            out.append(dict(scn=scn, ks=ks[lo:lo + 25]))
     return out
 
 
